@@ -8,7 +8,11 @@ RELATED = {"C01": ["C09", "C10", "C17"], "C02": ["C09"], "C03": ["C10"], "C04": 
            "C05": ["C09", "C10", "C17"], "C06": ["C07"], "C07": ["C15", "C06"], "C08": ["C20", "C13"],
            "C09": ["C12", "C02"], "C10": ["C03"], "C11": ["C02", "C05"], "C12": ["C13"], "C13": ["C12"],
            "C14": [], "C15": ["C07"], "C16": [], "C17": ["C01"], "C18": ["C06"], "C19": [], "C20": ["C08"]}   # superseded by rebased variants b2 / a2 or obsolete
-for log in sorted(Path("/tmp").glob("vseed-C*-*.log")):
+_part = [a for a in sys.argv[1:] if a.startswith("--part=")]
+_i, _n = (map(int, _part[0][7:].split("/")) if _part else (0, 1))
+for _k, log in enumerate(sorted(Path("/tmp").glob("vseed-C*-*.log"))):
+    if _k % _n != _i:
+        continue
     m = re.match(r"vseed-(C\d+)-(\w+)\.log", log.name)
     pid, var = m.group(1), m.group(2)
     if (pid, var) in skip:
